@@ -357,6 +357,20 @@ def directed():
                     yield gen_case(rng, lens, dtype, vclass, op)
             for nn in range(1, (max(lens) if lens else 0) + 2):
                 yield mk_case(lens, dtype, _vals(rng, dtype, sum(lens), "small", "diff"), "diff", nn, "small")
+    # complex cells that carry a NaN in one part or in both: numpy orders them behind every ordinary cell, by the part that is a number
+    nan_ = float("nan")
+    pool_ = [complex(2, 1), complex(nan_, 1), complex(1, 5), complex(1, 2), complex(2, nan_), complex(0, 0), complex(nan_, nan_), complex(3, nan_), complex(nan_, 0), complex(1, 1), complex(-1, 0), complex(nan_, 7)]
+    for lens in ([4, 2, 5], [3, 3, 3, 3], [5, 1, 4, 2], [2, 0, 6, 4]):
+        for k_ in range(4):
+            vals_ = [pool_[(i * (k_ + 1) + k_ * 5) % len(pool_)] for i in range(sum(lens))]
+            for dtype_ in ("complex128", "complex64"):
+                yield mk_case(lens, dtype_, vals_, "sort", 1, "nonfinite")
+    nans_ = [complex(1, nan_), complex(nan_, 2), complex(nan_, nan_), complex(9, nan_), complex(nan_, -3)]
+    for a_ in nans_:
+        for b_ in nans_:
+            for rows_ in ([[a_, 5, complex(3, 2)], [b_, complex(4, 1)]], [[5, a_, complex(3, 2), 1], [2, b_], [b_, a_, 7]], [[b_, 1], [complex(0, 1), a_, 2, 3]]):
+                for dtype_ in ("complex128", "complex64"):
+                    yield mk_case([len(r_) for r_ in rows_], dtype_, [complex(x_) for r_ in rows_ for x_ in r_], "sort", 1, "nonfinite")
     for op in OPS:
         for how in ("cell", "row", "fill"):
             for dtype in ("int64", "uint8", "float64", "bool"):
